@@ -75,6 +75,12 @@ def mon_c01(rec):
             v, msg = json.loads(c["arg"])
             if c["ret"] != str(v) or c["err"] != msg:
                 out.append("call tag %d (FailVal %s) returned (%s, %r): not its own handler's result" % (c["tag"], c["arg"], c["ret"], c["err"]))
+        elif c["m"] == "Notify0":
+            if c["err"] != "":
+                out.append("call tag %d of a function whose handler returns nothing returned error %r (the handler ran %d time(s))" % (c["tag"], c["err"], len(got)))
+        elif c["m"] == "Fail":
+            if c["err"] != json.loads(c["arg"]):
+                out.append("call tag %d (Fail %s) returned error %r: not the error its own handler returned" % (c["tag"], c["arg"], c["err"]))
         elif c["m"] in ("Sub.Deep.Ping", "Sub.Ping", "After"):
             off = {"Sub.Deep.Ping": 2000, "Sub.Ping": 1000, "After": 3000}[c["m"]]
             if c["ret"] != str(c["tag"] + off) or c["err"] != "":
@@ -216,6 +222,9 @@ def mon_c11(rec):
         elif c["m"] == "IterCount":
             if c["err"] != "" or c["ret"] != "0:0/;1:10/;2:8589934594/":
                 out.append("closure with named integer parameters: the callee's invocations returned %r (error %r), expected '0:0/;1:10/;2:8589934594/'" % (c["ret"], c["err"]))
+        elif c["m"] == "Mixed":
+            if c["err"] != "" or c["ret"] != "70,800,7,tail":
+                out.append("function arguments declared between plain arguments: the callee computed %r (error %r) from f(n), g(n+1), n, s; expected '70,800,7,tail' (every argument in its declared position)" % (c["ret"], c["err"]))
         elif c["m"] == "IterDerived":
             if c["err"] != "" or c["ret"] != "A=/context canceled;B=r0/;C=r2/":
                 out.append("one invocation of the callable was cancelled through its own context while another was in flight: the callee's invocations ended as %r (call error %r), expected 'A=/context canceled;B=r0/;C=r2/' (only the cancelled invocation is affected)" % (c["ret"], c["err"]))
@@ -242,6 +251,12 @@ def mon_c11(rec):
                 out.append("a call with an unencodable argument returned a nil error")
             if c.get("extra") != "0":
                 out.append("after a call failed to encode a later argument, %s closure registration(s) of its earlier argument remain" % c.get("extra"))
+        elif c["m"] == "LateInvokeWhileOtherInFlight":
+            if c["err"] != "closure does not exist" or c.get("extra") != "false/0":
+                out.append("late invocation of a closure whose call has returned, made while another closure-carrying call was in flight: error %r, functions ran (own/other) %s, expected 'closure does not exist' and false/0 (it must not reach any function)" % (c["err"], c.get("extra")))
+        elif c["m"] == "DelayedDuringLateInvoke":
+            if c["err"] != "" or c["ret"] != "4991":
+                out.append("the closure-carrying call that was in flight during a late invocation of another call's closure returned (%s, %r), expected (4991, '')" % (c["ret"], c["err"]))
         elif c["m"] == "LateInvoke":
             if c["err"] != "closure does not exist" or c.get("extra") != "false":
                 out.append("late invocation of a closure after its call returned: error %r, function ran=%s" % (c["err"], c.get("extra")))
@@ -312,12 +327,12 @@ def mon_c13(rec):
             out.append("after link %s failed a call on surviving link of %s returned (%s, %r)" % (victim, c["from"], c["ret"], c["err"]))
         if c["m"] == "IterAcross":
             i = c["tag"] - 780
-            if i != victim and (c["err"] != "" or c["ret"] != "h/"):
-                out.append("the closure-carrying call in flight on link %d was affected by the failure of link %s: returned (%s, %r)" % (i, victim, c["ret"], c["err"]))
+            if i != victim and (c["err"] != "" or c["ret"] != "h%d/" % i):
+                out.append("the closure-carrying call in flight on link %d was affected by the failure of link %s or reached another link's function: returned (%s, %r), expected 'h%d/'" % (i, victim, c["ret"], c["err"], i))
         if c["m"] == "DelayedAcross":
             i = c["tag"] - 7100
-            if i != victim and (c["err"] != "" or c["ret"] != str(c["tag"] + 1)):
-                out.append("a closure the hub passed on link %d stopped working when link %s failed: the call returned (%s, %r)" % (i, victim, c["ret"], c["err"]))
+            if i != victim and (c["err"] != "" or c["ret"] != str(20000 * (i + 1) + c["tag"])):
+                out.append("the closure the hub passed on link %d (every link gets one made by the same function literal, each answering with its own mark) did not do its job while link %s failed: the call returned (%s, %r), expected %d from this link's own function" % (i, victim, c["ret"], c["err"], 20000 * (i + 1) + c["tag"]))
         if c["m"] == "QuickCbAcross" and (c["err"] != "" or c["ret"] != "quick/"):
             out.append("while a function the hub passed on one link was being executed for that link's peer, a closure-carrying call of the hub on ANOTHER link returned (%s, %r) instead of completing ('quick/') within 3 s" % (c["ret"], c["err"]))
         if c["m"] == "SlowCbAcross" and (c["err"] != "" or c["ret"] != "slow/"):
@@ -351,7 +366,7 @@ def mon_c17(rec):
     if rec["family"] == "foreign":
         want = {901: ("c1", 5, ""), 902: ("c2", "hi", ""), 903: ("c3", None, ""), 904: ("c4", None, "nope"), 905: ("c5", 2905, ""),
                 906: ("c6", 3, ""), 907: ("c7", 0, ""), 908: ("c8", "", ""), 909: ("c9", None, ""), 910: ("c10", "hello x", ""), 911: ("s1", 6, ""), 912: ("s2", "x", ""), 913: ("s3", None, ""),
-                915: ("s5", 7, ""), 917: ("s7", 0, ""), 920: ("s10", 8, "")}
+                915: ("s5", 7, ""), 917: ("s7", 0, ""), 920: ("s10", 8, ""), 921: ("c21", 4921, ""), 922: ("c22", 924, "")}
         for c in rec["foreign"] or []:
             if c.get("extra") == "none-expected":
                 if c["ret"]:
